@@ -48,6 +48,12 @@ func (vc *VC) stdlibModel(name string, c *ssa.CallCommon, args []Val, st *State,
 		}
 	}
 	switch name {
+	case "reflect.TypeOf":
+		// the dynamic type of an interface value: nil exactly for the nil interface
+		r := vc.freshTyped(st, "rtype", rt, reach)
+		vc.addAssume(reach, eq(app("(_ is dnil)", r.t), app("(_ is dnil)", args[0].t)))
+		vc.assume("assumed contract: reflect.TypeOf(x) is nil exactly when x is the nil interface; no effect")
+		return r, true
 	case "math/bits.Mul64":
 		hi := vc.freshConst("mulhi", "Int")
 		lo := vc.freshConst("mullo", "Int")
